@@ -155,14 +155,33 @@ GapIsTheOnlyDifference(c) ==
 
 \* ------------------------------------------------------------------------------------ judging the real code
 (* c = a sized case in measured bytes + [slack] (byte jitter of sealed tokens inside exchange batches; 0 elsewhere);
-   o = [ok, body (whole HTTP body for unary/exchange; schema + cycles for a producer turn), framing, last, n,
-        ups (bytes of every upload() call made while the response was produced)]                              *)
+   o = [ok, shape ("ok" | "rpc_error" = Arrow IPC body carrying an error batch | "other"),
+        body (whole HTTP body; under a negotiated response codec the smaller of bytes-as-sent and decoded bytes),
+        framing, last, n,
+        ups    (bytes of every upload() call made while the response was produced; when the storage config
+                compresses, the smaller of stored and raw bytes -- no reading of "bytes uploaded" can false-alarm),
+        upsraw (raw IPC bytes of the same uploads = what the code accounts; = ups without upload compression)]
+   Concretisation classes that do not change the size arithmetic and are therefore not case fields: response codec
+   (identity / zstd), upload compression (none / zstd), first or second exchange turn of a stream.              *)
 Shift(sc, d, up) == [sc EXCEPT !.cyc = [i \in 1..Len(sc.cyc) |->
                        [sc.cyc[i] EXCEPT !.x = IF up THEN @ + d ELSE @ - d, !.wi = IF up THEN @ + d ELSE @ - d]]]
 Variants(c) == IF c.slack = 0 THEN {c} ELSE {c, Shift(c, c.slack, TRUE), Shift(c, c.slack, FALSE)}
 Agrees(c, o) == \E v \in Variants(c), fp \in BOOLEAN, fh \in BOOLEAN :
                   LET r == Decide(v, fp, fh) IN
                     r.ok = o.ok /\ Len(r.ups) = Len(o.ups) /\ (c.kind = "producer" => r.n = o.n)
+\* the observation is *exactly* what the code as found does on this case (same outcome, same uploads byte for byte,
+\* same number of cycles): what an open known finding is allowed to stand for, nothing wider
+Near(a, b, d) == a <= b + d /\ b <= a + d
+\* where the response shows the size of the (single) upload, that size -- not the dry run's -- is what the code compared
+ObsVariants(c, o) == IF c.slack > 0 /\ Len(c.cyc) = 1 /\ Len(o.upsraw) = 1
+                     THEN {[v EXCEPT !.cyc = [i \in 1..1 |-> [v.cyc[1] EXCEPT !.x = o.upsraw[1]]]] : v \in Variants(c)}
+                     ELSE Variants(c)
+AsFound(c, o) == \E v \in ObsVariants(c, o) :
+                   LET r == Decide(v, FALSE, FALSE) IN
+                     /\ r.ok = o.ok /\ Len(r.ups) = Len(o.upsraw) /\ (c.kind = "producer" => r.n = o.n)
+                     /\ \A i \in 1..Len(r.ups) : Near(r.ups[i], o.upsraw[i], c.slack)
+\* "an oversize result becomes an RPC error instead": a response that is not a success is an RPC error
+OversizeIsRpcErrorOK(o) == ~o.ok => o.shape = "rpc_error"
 Conforms(c, o) ==
   LET r == [ok |-> o.ok, ups |-> o.ups, n |-> o.n, body |-> o.body, last |-> o.last] IN
        {"WireCap"             : x \in {1} \cap (IF WireCapOK(c, r) THEN {} ELSE {1})}
@@ -170,5 +189,7 @@ Conforms(c, o) ==
   \cup {"RefusedBeforeUpload" : x \in {1} \cap (IF RefusedBeforeUploadOK(c, r) THEN {} ELSE {1})}
   \cup {"ProducerWire"        : x \in {1} \cap (IF ProducerWireOK(c, r, o.framing) THEN {} ELSE {1})}
   \cup {"ProducerExternal"    : x \in {1} \cap (IF ProducerExternalOK(c, r) THEN {} ELSE {1})}
+  \cup {"OversizeIsRpcError"  : x \in {1} \cap (IF OversizeIsRpcErrorOK(o) THEN {} ELSE {1})}
   \cup {"ModelAgrees"         : x \in {1} \cap (IF Agrees(c, o) THEN {} ELSE {1})}
+  \cup {"NotAsFound"          : x \in {1} \cap (IF AsFound(c, o) THEN {} ELSE {1})}      \* signature only, not a clause
 =========================================================================================
